@@ -344,18 +344,18 @@ def fullstack_run(kind, ops, cfg, max_acc, answers):
                 if op[0] == 'put':
                     c = nfc.snep.SnepClient(cl_llc)
                     c.socket, c.send_miu = sock, info['send_miu']
-                    r = c.put_octets(op[1], timeout=60.0)
+                    r = c.put_octets(op[1], timeout=20.0)
                     results.append({True: 'true', False: 'false'}.get(r, repr(r)))
                 elif op[0] == 'get':
                     c = nfc.snep.SnepClient(cl_llc, max_ndef_msg_recv_size=op[2])
                     c.socket, c.send_miu = sock, info['send_miu']
-                    r = c.get_octets(op[1], timeout=60.0)
+                    r = c.get_octets(op[1], timeout=20.0)
                     results.append('none' if r is None else 'octets:' + H(bytes(r)))
                 else:
                     if not hc.send_octets(op[1]):
                         results.append('sendfailed')
                         continue
-                    r = hc.recv_octets(timeout=60.0)
+                    r = hc.recv_octets(timeout=20.0)
                     results.append('none' if r is None else 'octets:' + H(bytes(r)))
             except nfc.snep.SnepError as e:
                 results.append('sneperror:%d' % e.errno)
@@ -717,8 +717,12 @@ def main():
         if timed_out:
             ck.count('coupled-with-virtual-timeout(model comparison by scripts only)')
 
+        died = impl['sstate'].startswith('crashed') and len(ops) > 1
+        if died:
+            ck.count('coupled-server-thread-died(rest of the session not compared)')
+
         def cb(out):
-            if timed_out:
+            if timed_out or died:
                 return
             m = split_model_trace(out)
             m['log'] = canon_log(m['log'])
@@ -769,11 +773,17 @@ def main():
         return max(0, k * miu - rng.choice([0, hdr]) + rng.randrange(-7, 8))
 
     def prefix_free(m, mius):
-        """premise of handover_exact, checked with ndeflib on the fragment boundaries"""
+        """premise of handover_exact (every non-empty proper prefix is rejected with DecodeError), checked
+        with ndeflib on the fragment boundaries, and on every prefix for messages up to 300 octets"""
+        ks = set()
         for mm in mius:
-            for k in range(mm, len(m), mm):
-                if strict_ok(m[:k]):
-                    return False
+            ks.update(range(mm, len(m), mm))
+        if len(m) <= 300:
+            ks.update(range(1, len(m)))
+            ck.count('prefix-free-premise-checked-on-all-prefixes')
+        for k in ks:
+            if strict_cls(m[:k]) != 'err':
+                return False
         return True
 
     if ck.replay:
@@ -794,10 +804,10 @@ def main():
             expect={'log': ['ho:' + H(req1), 'ho:' + H(req2)], 'results': ['octets:' + H(sel1), 'octets:' + H(sel2)]})
     flush()
 
-    n_snep = 400 if quick else 4000
-    n_ho = 150 if quick else 1500
-    n_sess = 40 if quick else 400
-    n_odd = 100 if quick else 1000
+    n_snep = 400 if quick else 10000
+    n_ho = 150 if quick else 4000
+    n_sess = 40 if quick else 1000
+    n_odd = 100 if quick else 2500
 
     # SNEP put / get, single operation, acceptable-length limits around the size
     for it in range(n_snep):
@@ -924,6 +934,8 @@ def main():
     def fullstack(kind, ops, cfg, max_acc, answers, tag, expect):
         case = {'fullstack': True, 'kind': kind, 'tag': tag, 'cfg': cfg, 'max_acc': max_acc,
                 'ops': [fmt_op(o) for o in ops], 'answers': fmt_answers(answers), 'expect': expect}
+        if kind == 'ho' and len(ops) > 1 and any(v[0] == 'ho-server-second-request' for v in ck.violations):
+            return                     # already reported; the unrepaired server can deadlock the link here
         obs = None
         for attempt in range(2):       # a disagreement must reproduce (real threads, real waits)
             try:
@@ -976,7 +988,7 @@ def main():
     def pick_link_miu():
         return rng.choice([128, 128, 129, 200, 248, 1024, 2175, rng.randrange(128, 2176)])
 
-    n_fs = 120 if quick else 1500
+    n_fs = 120 if quick else 3000
     for it in range(n_fs):
         cfg = {'miu_i': pick_link_miu(), 'miu_t': pick_link_miu(), 'agf': rng.random() < 0.5, 'srv_side': rng.choice(['i', 't']),
                'srv_miu': rng.choice([128, 248, 1984, rng.randrange(128, 2176)]), 'srv_rw': rng.choice([1, 2, 15, rng.randrange(1, 16)]),
